@@ -277,4 +277,27 @@ PROPS = {
         "assumptions": ["a crash inside MergeAll's goroutine cannot be recovered by the harness: it ends the run and is reported as the failing input (last_context.txt)"],
         "gen_facts": ["Gen.Panics.readPath: explicit panic( calls per read-path function (all 0)"],
     },
+    "C08": {
+        "level_text": "FULL on the decision logic: the keys in force at a logical time are those of the last identity version whose (resolved) "
+                      "time for the clock is <= that time (validKeysAt_spec, for non-decreasing times, which Validate enforces), a key counts "
+                      "exactly on [time of the introducing version, time of the removing version) (key_window); a commit is accepted iff no "
+                      "key is in force or it carries a signature good for its exact content by a key in force (accept_iff); unsigned, wrongly "
+                      "signed (removed, not-yet-valid, stranger's key) or altered commits are signature errors, not crashes.",
+        "level_note": "Trusted: Lean kernel, harness, and OpenPGP itself: `CheckDetachedSignature` is an environment predicate (a signature is "
+                      "good for the content or not); signed-then-altered commits are covered by the theorem (good = false) but not produced by "
+                      "the harness (the storage API signs what it stores). Boundary worth knowing: a key counts *at* the introducing "
+                      "version's time, and a new version records the current clock value without incrementing it, so an author's own "
+                      "earlier unsigned commit at that same time becomes unacceptable (observed, reproduced by the model).",
+        "required_theorems": ["validKeysFrom_eq", "keysAtPairs_spec", "validKeysAt_spec", "key_window", "accept_iff", "unsigned_rejected",
+                              "wrong_signature_rejected", "keyless_accepted"],
+        "slices": ["C08"],
+        "rule": "identity histories of 1..5 versions built with the real API (NewIdentityFull, Mutate) at chosen non-decreasing logical times "
+                "(equal times included) with key sets drawn from 4 real OpenPGP keys; for every logical time 1..max+2 a commit by that author "
+                "unsigned, signed by each of the 4 keys and by a stranger's key, read with bug.Read on the mock and go-git back ends with the "
+                "identity resolved from the repository; compared: ValidKeysAtTime at every time and the verdict per commit; "
+                "non-trivial/distinct = distinct key histories",
+        "trusted_base": [KERNEL, TIE, "model: GitBugModel.Identity (validKeysAt, checkCommit) for Identity.ValidKeysAtTime and the signature check of readOperationPack", "OpenPGP (go-crypto) is trusted"],
+        "assumptions": ["identity times for the clock never decrease (enforced by Identity.Validate; proved rejected otherwise in C09)"],
+        "gen_facts": [],
+    },
 }
